@@ -89,9 +89,9 @@ func runFixturesImpl(root string) error {
 	}
 	// BND
 	fc.Obs = nil
-	boundsRule(fc, "FX-BND", []string{"pkg/fixture/bnd"}, 5)
+	boundsRule(fc, "FX-BND", []string{"pkg/fixture/bnd"}, 7)
 	v = verdicts()
-	if err := expect("BND", v, []string{"BadTestBeforeClamp", "BadIndexOtherLength", "BadIndexNoLowerBound"}, []string{"GoodClamp", "GoodIndex", "GoodLoopWindow"}); err != nil {
+	if err := expect("BND", v, []string{"BadTestBeforeClamp", "BadIndexOtherLength", "BadIndexNoLowerBound", "BadCapBeforeClamp"}, []string{"GoodClamp", "GoodIndex", "GoodLoopWindow", "GoodCapAfterClamp"}); err != nil {
 		return err
 	}
 	if v["GoodClamp"] != "discharged" || v["GoodIndex"] != "discharged" {
